@@ -19,9 +19,8 @@ ALLOWED_AXIOMS = {'propext', 'Classical.choice', 'Quot.sound'}
 FORBIDDEN = re.compile(r'\bsorry\b|\badmit\b|^\s*axiom\s|native_decide|bv_decide|implemented_by|\bunsafe\s|maxHeartbeats\s+0\b'
                        r'|^\s*opaque\s|@\[\s*extern\b|@\[\s*csimp\b', re.M)
 # `partial def` is acceptable only for the IO read loops of the line-protocol drivers (no theorem can unfold one);
-# anywhere else it is reported like a forbidden token.  C18/Trace.lean and C18/Parse.lean are driver-side helpers
-# (trace printing / s-expression parsing of the op lines), not part of the model the theorems are about.
-PARTIAL_OK = re.compile(r'(^|/)Driver[^/]*\.lean$|(^|/)C18/(Trace|Parse)\.lean$')
+# anywhere else it is reported like a forbidden token.
+PARTIAL_OK = re.compile(r'(^|/)Driver[^/]*\.lean$')
 PARTIAL = re.compile(r'^\s*(?:private\s+|protected\s+)?partial\s+def\b', re.M)
 
 TRUSTED_BASE = [
